@@ -103,25 +103,25 @@ class KGFnWrapper:
         # lists, so that ragged / mixed lists become object arrays instead of raising.
         return self.klong._backend.kg_asarray(x) if isinstance(x, list) else x
 
+    def _apply(self, fn, args):
+        if len(args) != fn.arity:
+            raise RuntimeError(f"Klong function called with {len(args)} but expected {fn.arity}")
+        fn_args = [self._to_klong_arg(x) for x in args]
+        return self.klong.call(KGCall(fn.a, [*fn_args], fn.arity))
+
     def __call__(self, *args, **kwargs):
-        # Try to resolve dynamically first if we have a symbol
+        fn = self.fn
+        # Resolve dynamically first if we have a symbol
         if self._sym is not None:
             try:
                 current = self.klong._context[self._sym]
-                if isinstance(current, KGFn) and not isinstance(current, KGCall):
-                    # Use the current definition
-                    if len(args) != current.arity:
-                        raise RuntimeError(f"Klong function called with {len(args)} but expected {current.arity}")
-                    fn_args = [self._to_klong_arg(x) for x in args]
-                    return self.klong.call(KGCall(current.a, [*fn_args], current.arity))
             except KeyError:
-                # Symbol was deleted, fall through to original function
-                pass
-
-        if len(args) != self.fn.arity:
-            raise RuntimeError(f"Klong function called with {len(args)} but expected {self.fn.arity}")
-        fn_args = [self._to_klong_arg(x) for x in args]
-        return self.klong.call(KGCall(self.fn.a, [*fn_args], self.fn.arity))
+                # Symbol was deleted, use the original function
+                current = None
+            if isinstance(current, KGFn) and not isinstance(current, KGCall):
+                # Use the current definition
+                fn = current
+        return self._apply(fn, args)
 
 
 class KGCall(KGFn):
